@@ -27,7 +27,7 @@ PERIOD = 0.2
 
 
 def cases(tier, seed):
-    n = 12 if tier == 'quick' else 160
+    n = 36 if tier == 'quick' else 160
     return [{'seed': seed * 100003 + i, 'kind': 'mc', 'n': 25} for i in range(n)] + \
         [{'seed': seed * 100003 + i, 'kind': 'hl', 'n': 40} for i in range(n)]
 
